@@ -6,19 +6,36 @@ pub(crate) fn any_rc4() -> Rc4 {
     Rc4 { state: kani::any(), i: kani::any(), j: kani::any() }
 }
 
-/// arbitrary keystream, concrete position (for the I/O harnesses, which do not depend on the position)
+/// arbitrary keystream window at a concrete position (for the I/O harnesses, which consume at most 12
+/// keystream bytes and do not depend on the position): the 12 pad bytes after position `i` are symbolic,
+/// the rest of the array (never read by the pad abstraction) is zero.
 pub(crate) fn any_rc4_at(i: u8) -> Rc4 {
-    Rc4 { state: kani::any(), i, j: kani::any() }
+    let mut state = [0u8; 256];
+    let mut k = 1u8;
+    while k <= 12 {
+        state[i.wrapping_add(k) as usize] = kani::any();
+        k += 1;
+    }
+    Rc4 { state, i, j: kani::any() }
 }
 
 pub(crate) fn rc4_same(a: &Rc4, b: &Rc4) -> bool {
     let mut eq = a.i == b.i && a.j == b.j;
+    // 8 bytes per iteration keeps the loop bound at 32
     let mut k = 0;
     while k < 256 {
-        if a.state[k] != b.state[k] {
+        if a.state[k] != b.state[k]
+            || a.state[k + 1] != b.state[k + 1]
+            || a.state[k + 2] != b.state[k + 2]
+            || a.state[k + 3] != b.state[k + 3]
+            || a.state[k + 4] != b.state[k + 4]
+            || a.state[k + 5] != b.state[k + 5]
+            || a.state[k + 6] != b.state[k + 6]
+            || a.state[k + 7] != b.state[k + 7]
+        {
             eq = false;
         }
-        k += 1;
+        k += 8;
     }
     eq
 }
